@@ -127,6 +127,22 @@ VARIANTS = [
         {"file": CIRC, "old": "class InjectionTracker:\n",
          "new": "def _walk_forward(tracked, first_id):\n    cur = first_id\n    for inj in tracked:\n        if cur < inj and cur not in tracked:\n"
                 "            break\n        cur += 1\n    return cur\n\n\nclass InjectionTracker:\n"}]},
+    # ------------------------------------------------------------------ running operand / total base update
+    {"name": "R2 inverse walks oldest-first but compares with the running value", "file": CIRC, "expect": "C04.R2",
+     "old": _INV_LOOP,
+     "new": "        for packet_id in self.injections:\n            if packet_id > new_id:\n                break\n            new_id -= 1\n"},
+    {"name": "R2 forward walks newest-first comparing with the running value", "file": CIRC, "expect": "C04.R2",
+     "old": "        for packet_id in self.injections:\n            if new_id < packet_id and new_id not in self.injections:\n                break\n",
+     "new": "        for packet_id in reversed(self.injections):\n            if new_id < packet_id and new_id not in self.injections:\n                continue\n"},
+    {"name": "R1 base not advanced for IDs far ahead", "file": CIRC, "expect": "C04.R1",
+     "old": "        if orig_id > self._packet_id_base:\n            self._packet_id_base = orig_id\n",
+     "new": "        if orig_id > self._packet_id_base and orig_id - self._packet_id_base < self._maxlen:\n            self._packet_id_base = orig_id\n"},
+    {"name": "P R1 base update behind a guard clause", "file": CIRC, "expect": "silent",
+     "old": "        if orig_id > self._packet_id_base:\n            self._packet_id_base = orig_id\n        elif oldest_tracked > orig_id:\n"
+            "            logging.warning(f\"Received VERY old packet ID {orig_id}, likely generated invalid ID.\")\n",
+     "new": "        if orig_id <= self._packet_id_base:\n            if oldest_tracked > orig_id:\n"
+            "                logging.warning(f\"Received VERY old packet ID {orig_id}, likely generated invalid ID.\")\n            return\n"
+            "        self._packet_id_base = orig_id\n"},
     # ------------------------------------------------------------------ documented limits
     {"name": "X forward shift boundary < -> <= (value-level)", "file": CIRC, "expect": "miss",
      "old": "if new_id < packet_id and new_id not in self.injections:", "new": "if new_id <= packet_id and new_id not in self.injections:"},
